@@ -538,6 +538,7 @@ func (s *State) evalBuiltin(node *ast.Builtin) object.Object {
 		if isError {
 			val = object.String{Value: val.(object.Error).Value}
 		}
+		val = object.CopyRegister(val) // the value, not the (loop or parameter) register that will change.
 		return object.MakeQuad(ErrorKey, object.NativeBoolToBooleanObject(isError), object.ValueKey, val)
 	case token.ERROR, token.PRINT, token.PRINTLN, token.LOG:
 		return s.evalPrintLogError(node)
